@@ -80,6 +80,7 @@ NewEndpoint(cfg, isn, rnxt0, pwnd0, now) ==
       probes   |-> 0, newSegs |-> 0, codeMss |-> cfg.mss0, codeMaxSs |-> 0,
       fin      |-> NoFin,
       splitDelivered |-> FALSE, \* a probe was re-segmented after the peer had already stored it (known finding)
+      popWhy |-> "", splitWhy |-> "",   \* why the last probe was given up; why the one that made splitDelivered true was
       \* receive side
       rnxt     |-> rnxt0,      \* last in-order sequence number stored
       held     |-> << >>,      \* wire seq -> payload length, packets held out of order
@@ -171,6 +172,12 @@ R_SegContiguous(e, s, runs, alts, amb, plen) ==
         /\ e.nextOff + plen <= e.wr
 
 R_NoGarbage(runs) == NoGarbage(runs)
+
+\* context of the known finding D1b: a probe given up on EXPIRY had been delivered.  Any other reason for giving up a
+\* delivered probe is not that finding.
+SplitCtx(x) == IF ~x.splitDelivered THEN ""
+               ELSE IF x.splitWhy \in {"expired", ""} THEN "split-of-delivered-probe"
+               ELSE "split-of-delivered-probe," \o x.splitWhy
 
 IsSplit(e, s, plen) == Known(e, s) /\ (plen < e.segs[s].len \/ (e.segs[s].popped /\ plen > e.segs[s].len))
 IsRetx(e, s) == D(s, e.nxt) < 0       \* a sequence number that was transmitted before
@@ -283,6 +290,7 @@ RecvAck(e, ack, wnd, hasSack, sackSet, isState, now, line) ==
                   !.probeOut = IF @ >= 0 /\ (@ \in gone \/ @ \in newS) THEN -1 ELSE @,
                   !.probeQ = IF e.probeOut >= 0 /\ (e.probeOut \in gone \/ e.probeOut \in newS) THEN FALSE ELSE @,
                   !.splitDelivered = @ \/ poppedAcked # {},
+                  !.splitWhy = IF ~e.splitDelivered /\ poppedAcked # {} THEN e.popWhy ELSE @,
                   !.fin = IF finAck THEN [@ EXCEPT !.acked = TRUE] ELSE @]
 
 (***************************************************************************)
